@@ -14,7 +14,7 @@ CLAIMS = {
         "AST dataflow over all sampleGiven/clone implementations + shape/path rules on the rejection loop",
         "Decides structural necessary conditions of one-draw-per-value and of conditioning on the checked sample: draw-once typing of all "
         "sampleGiven bodies against constructor dependency chains, memoisation shape of Samplable.sample/sampleAll, rejection-loop shape "
-        "(activation once per call, accepted sample = checked sample, attempt counter), clone/resample reconstruction, weight/option alignment. "
+        "(activation once per call, accepted sample = checked sample, attempt counter), clone/resample reconstruction, weight/option alignment, and (shared with C05) that operator shortcuts are identities and that operands and nested container literals are lifted. "
         "Does NOT decide numerical equality of probabilities.",
         "DESIGN.md section 3 C01",
     ),
@@ -22,26 +22,26 @@ CLAIMS = {
         "three-valued guard evaluation over SampleChecker classes + coverage/polarity rules + one-shot-iterator dataflow",
         "Decides that only optional/inactive requirements can be skipped by any checker (three-valued evaluation of every drop/skip construct), "
         "which requirement classes may be optional, polarity of the built-in requirement predicates, coverage of generateDefaultRequirements "
-        "over all objects/pairs, single-use iterator reuse, and accepted-sample = checked-sample. Does NOT decide geometric correctness of the predicates.",
+        "over all objects/pairs, single-use iterator reuse, accepted-sample = checked-sample, and the structural soundness conditions of the predicates the requirements evaluate (shortcut polarity and planar fast paths of C04, set-algebra truth tables of C16, occluder monotonicity and plumbing of C17). Does NOT decide numerical geometric correctness of the predicates.",
         "DESIGN.md section 3 C02",
     ),
     "C03": (
         "lineage dataflow of weighted choices + sampler membership/height rules + operand-interface typing",
         "Decides that population and weights of every weighted piece choice derive from the same sequence under the same filters, that the "
         "generic intersection/difference/union samplers test membership in all operands (with the 1 - 1/k multiplicity correction), that planar "
-        "samplers keep the region's height, and that sampler code reads only attributes every Region has. Does NOT decide uniformity statistically.",
+        "samplers keep the region's height, that sampler code reads only attributes every Region has, that sibling ray queries of one function agree on their options, and that a cached prism is reused only when its z-interval contains the requested one. Does NOT decide uniformity statistically.",
         "DESIGN.md section 3 C03",
     ),
     "C04": (
         "approximation-kind abstract domain (OVER/UNDER/DIST by provenance) over every early return of the overlap/containment tests",
         "Decides shortcut polarity: every constant early return of MeshVolumeRegion.intersects/containsObject, footprint containment and the "
-        "planar-box fast paths is dominated by a guard whose provenance-classified quantities prove that answer; fall-through paths end in the "
+        "planar-box fast paths is dominated by a guard whose provenance-classified quantities prove that answer (radii and distances must be measured from the same reference point; an extent refutes containment only if a real point of the operand attains it); fall-through paths end in the "
         "exhaustive computation. Does NOT decide numerical agreement with exact geometry.",
         "DESIGN.md section 3 C04",
     ),
     "C05": (
         "forwarding analysis of lifting decorators, G3 reconstruction of evaluateInner, identity table, interval-arithmetic LinForm table, None-flow",
-        "Decides that lifting helpers forward the complete argument list, that evaluateInner rebuilds objects through their own constructor, that "
+        "Decides that lifting helpers forward the complete argument list, that container literals are converted recursively before they are tested for randomness, that evaluateInner rebuilds objects through their own constructor, that "
         "algebraic shortcuts are true identities guarded by non-laziness, that support intervals follow interval arithmetic, never compute on "
         "unknown bounds and use only monotone wrappers from an allow-list. Does NOT decide value equality with CPython on all expression trees.",
         "DESIGN.md section 3 C05",
@@ -49,7 +49,7 @@ CLAIMS = {
     "C06": (
         "manual<->code table extraction (RST reader + path enumeration of specifier functions), def-use of helpers, finite abstract interpretation of the priority fold",
         "Decides that every built-in specifier's (property, priority, modifies, dependencies) equals the reference manual, that declared "
-        "dependencies cover what helpers read, that error paths of resolution are well-formed, and that the priority fold is order independent "
+        "dependencies cover what helpers read, that class defaults declare exactly the dependencies of what they evaluate, that error paths of resolution are well-formed, and that the priority fold is order independent "
         "over an abstract domain of priorities. Does NOT decide the values computed by helpers.",
         "DESIGN.md section 3 C06",
     ),
@@ -57,12 +57,12 @@ CLAIMS = {
         "LinForm template of the six directional specifiers, name-derived sign table of corners, compiler->veneer and grammar->AST binding, parent-frame def-use",
         "Decides the bounding-box gap formula of left/right/ahead/behind/above/below as linear forms, the signs of all side/corner properties, "
         "that each emitted runtime call binds to its veneer definition, that grammar actions bind to syntax-node fields, and that facing-family "
-        "helpers read parentOrientation. Does NOT decide frame correctness of beyond/offset along/following numerically.",
+        "helpers read parentOrientation and apply it as a whole rotation (not one Euler angle), and that the angle-valued operators return normalised angles. Does NOT decide frame correctness of beyond/offset along/following numerically.",
         "DESIGN.md section 3 C07",
     ),
     "C08": (
         "abstract interpretation over ast.cmpop classes, bound-polarity tags from supportInterval, subset derivation grammar for conditionTo, loop-variant liveness",
-        "Decides that only <,<=,== yield bounds, that erosion uses LOWER-UPPER and growth UPPER bounds, that every conditioned position draws from "
+        "Decides that only <,<=,== yield bounds, that the abs-bound algebra is right on every path (symbolic path enumeration), that erosion uses LOWER-UPPER and growth UPPER bounds, that a visibility bound uses the viewer's own view distance, that the buffered bounding box grows on both sides, that every conditioned position draws from "
         "the base restricted by intersections only (at the base's height), that voxel retry loops vary what they retry, that voxel dilation has "
         "room and consistent units, and that unknown bounds are not used arithmetically. Does NOT decide geometric over-approximation numerically.",
         "DESIGN.md section 3 C08",
@@ -71,14 +71,14 @@ CLAIMS = {
         "dispatch/override/typing rules over the whole Region hierarchy (G1, G2, G3), z-propagation, identity table",
         "Decides double-dispatch hygiene (triedReversed forwarding, safe reversed retries), override signature agreement, unresolved names/attributes, "
         "operand-interface conformance, height propagation of planar results, reconstruction of lazy regions, nearest-hit selection and the "
-        "identity/annihilator laws of everywhere/nowhere. Does NOT decide mesh booleans or distances numerically.",
+        "identity/annihilator laws of everywhere/nowhere, and membership in intersection/union/difference regions as truth tables over the operand queries. Does NOT decide mesh booleans or distances numerically.",
         "DESIGN.md section 3 C16",
     ),
     "C09": (
-        "PEG grammar IR analysis (keyword-marker closure of Scenic alternatives), visitor classification of the compiler, located-node audit of grammar actions",
+        "PEG grammar IR analysis (keyword-marker closure of Scenic alternatives), visitor classification of the compiler, located-node audit of grammar actions, structural comparison with CPython's own PEG grammar",
         "Decides that no Scenic alternative exposed to inherited Python rules can capture plain Python without a Scenic keyword (frozen, "
         "reasoned exceptions), that the compiler's Python-node visitors are the identity outside Scenic contexts and only perform the documented "
-        "rewrites with copied locations, and that every grammar action building a located node passes its location. Does NOT decide equality "
+        "rewrites with copied locations, that every grammar action building a located node passes its location, and that the Python part of the grammar has CPython's alternatives in CPython's order with helper arguments in the same positions (compared with CPython 3.11's own PEG grammar, frozen deviations listed). Does NOT decide equality "
         "with CPython's AST over a corpus (differential testing).",
         "DESIGN.md section 3 C09",
     ),
@@ -86,7 +86,7 @@ CLAIMS = {
         "exhaustiveness of grammar-built nodes vs compiler visitors, raise/assert audit, token typing of grammar actions and parser helpers, pegen nullable analysis",
         "Decides that every node the grammar can build is compiled, that parser helpers and the compiler raise only Scenic syntax errors, that "
         "token-typed values are accessed only through TokenInfo fields (error construction cannot fail), that no repetition ranges over a "
-        "nullable item, and that the veneer is deactivated in a finally. Does NOT decide totality over all byte strings.",
+        "nullable item, that error actions do not index possibly-empty components and error reporting does not index past the end of a file, and that the veneer is deactivated in a finally. Does NOT decide totality over all byte strings.",
         "DESIGN.md section 3 C10",
     ),
     "C11": (
@@ -99,7 +99,7 @@ CLAIMS = {
     "C12": (
         "statement-order tables over Simulation._run and DynamicScenario._step cross-checked with the manual's numbered list",
         "Decides the order and once-per-step multiplicity of the landmarks of a time step in code and manual, the once-per-step logs and the "
-        "schedule check. Does NOT decide the exact step at which each duration construct fires.",
+        "schedule check, and the written comparisons of the step limit and the scenario time limit. Does NOT decide the exact step at which each duration construct fires for every program.",
         "DESIGN.md section 3 C12",
     ),
     "C13": (
@@ -131,7 +131,7 @@ CLAIMS = {
     "C18": (
         "writer/reader format symmetry, fail-closed read dataflow, error-conversion wrapping, RNG-free closure of dependency-serialised nodes, sign domain",
         "Decides struct format/size/tag symmetry of all codecs and headers, that every read fails closed, that decoding errors are "
-        "SerializationErrors, that dependency-serialised nodes are deterministic, that run-time samples are recorded and that divergence is a "
+        "SerializationErrors, that dependency-serialised nodes are deterministic, that run-time samples are recorded, that the record and replay streams are independent and symmetric and go through the conditioned object, and that divergence is a "
         "magnitude. Does NOT decide round-trip equality for all programs.",
         "DESIGN.md section 3 C18",
     ),
